@@ -5,6 +5,7 @@ package c10
 
 import (
 	"fmt"
+	"math"
 	"runtime"
 
 	"pgregory.net/rapid"
@@ -71,6 +72,7 @@ func Check(c *Case) (res kit.Result) {
 	al := signal.Allocator{Channels: C, Length: L, Capacity: K}
 	pool := kit.NewAnyPool(c.T, al)
 	want := kit.Hdr{Len: C * L, Cap: C * K, Length: L, Capacity: K, Channels: C, BitDepth: kit.Info(c.T).Bits}
+	isFloat := kit.Info(c.T).Kind == kit.Float
 	var out []*held
 	wasPut := map[any]bool{}   // buffer objects handed to Put
 	putDirty := map[any]bool{} // ... that had been written to
@@ -147,11 +149,17 @@ func Check(c *Case) (res kit.Result) {
 				}
 			}
 			nh := &held{buf: b, hdrs: []kit.AnyBuf{b}, alias: alias, id: checkouts}
-			// ownership stamp over the whole capacity
+			// ownership stamp over the whole capacity - unless this is a "quiet" checkout (odd N),
+			// which leaves the buffer as it came, so that what the history writes is all there is
 			nh.model = make([]kit.Val, C*K)
 			for i := range nh.model {
-				alias.Set(i, kit.IV(int64(1+(checkouts*7+i)%100)))
+				if op.N%2 == 0 {
+					alias.Set(i, kit.IV(int64(1+(checkouts*7+i)%100)))
+				}
 				nh.model[i] = alias.Get(i)
+			}
+			if op.N%2 == 1 {
+				res.Class("quietCheckout")
 			}
 			delete(wasPut, b.Raw())
 			out = append(out, nh)
@@ -180,7 +188,7 @@ func Check(c *Case) (res kit.Result) {
 			n = n % (C*K + 3)
 			for k := 0; k < n; k++ {
 				ln := h.buf.Hdr().Len
-				v := kit.IV(int64(101 + k%20))
+				v := sampleFor(isFloat, n, 101+k%20)
 				h.buf.AppendSample(v)
 				if ln < C*K {
 					h.model[ln] = h.alias.Get(ln)
@@ -228,7 +236,7 @@ func Check(c *Case) (res kit.Result) {
 			hd := h.buf.Hdr()
 			m := kit.Min(n%(C*K+2), hd.Len)
 			for k := 0; k < m; k++ {
-				h.buf.Set(k, kit.IV(int64(30+k%50)))
+				h.buf.Set(k, sampleFor(isFloat, n+k, 30+k%50))
 				h.model[k] = h.alias.Get(k)
 			}
 		case "writeStriped":
@@ -250,7 +258,7 @@ func Check(c *Case) (res kit.Result) {
 				continue
 			}
 			pos := n % hd.Len
-			h.buf.Set(pos, kit.IV(int64(111+n%10)))
+			h.buf.Set(pos, sampleFor(isFloat, n, 111+n%10))
 			h.model[pos] = h.alias.Get(pos)
 		case "reslice":
 			k := n % (K + 1)
@@ -266,6 +274,16 @@ func Check(c *Case) (res kit.Result) {
 		}
 	}
 	return
+}
+
+// sampleFor picks the value an operation writes: for floating element types a
+// third of the parameters select the negative zero, which compares equal to 0
+// but is not what a fresh buffer holds.
+func sampleFor(isFloat bool, sel, v int) kit.Val {
+	if isFloat && sel%3 == 1 {
+		return kit.FV(math.Copysign(0, -1))
+	}
+	return kit.IV(int64(v))
 }
 
 func FP(c *Case) uint64 {
@@ -295,9 +313,12 @@ func Gen(t *rapid.T) *Case {
 		c.L = rapid.IntRange(0, c.K).Draw(t, "l")
 	}
 	n := rapid.IntRange(1, 40).Draw(t, "nops")
-	c.Ops = append(c.Ops, Op{Kind: "get"})
+	c.Ops = append(c.Ops, Op{Kind: "get", N: rapid.IntRange(0, 1).Draw(t, "quiet0")})
 	for i := 0; i < n; i++ {
 		op := Op{Kind: rapid.SampledFrom(kinds).Draw(t, "kind")}
+		if op.Kind == "get" {
+			op.N = rapid.IntRange(0, 1).Draw(t, "quiet")
+		}
 		if op.Kind == "gc" && rapid.IntRange(0, 3).Draw(t, "gcRare") != 0 {
 			op.Kind = "get"
 		}
